@@ -425,10 +425,54 @@ fn c08_outside_closure() -> Option<(String, String)> {
     r
 }
 
+/// a damaged record of a requested target is discarded; the recorded state of a target outside the closure is not touched
+fn c08_corrupted_record_and_sibling_state() -> Option<(String, String)> {
+    let p = Proj::new("c08r");
+    write(&p.root.join("a.txt"), b"a");
+    write(&p.root.join("z.txt"), b"z");
+    p.write_yml("zinoma.yml", &format!("targets:\n  a:\n    build: '{}'\n    input: [{{paths: [a.txt]}}]\n  z:\n    build: '{}'\n    input: [{{paths: [z.txt]}}]\n", p.quick("a"), p.quick("z")));
+    let (code, err, to) = run_to_end(&p, &["a", "z"]);
+    if to || code != Some(0) {
+        p.cleanup();
+        return Some(("set-up run failed".into(), format!("{:?} {}", code, err)));
+    }
+    let rec_a = p.root.join(".zinoma/a.checksums");
+    let rec_z = p.root.join(".zinoma/z.checksums");
+    let (za, zb) = (std::fs::read(&rec_a).unwrap_or_default(), std::fs::read(&rec_z).unwrap_or_default());
+    if za.len() < 8 || zb.len() < 8 {
+        p.cleanup();
+        return Some(("set-up: records missing".into(), String::new()));
+    }
+    std::fs::write(&rec_a, &za[..za.len() / 2]).unwrap(); // truncated by a crash
+    write(&p.root.join(".zinoma/notes.txt"), b"unrelated file in the work dir");
+    let _ = std::fs::remove_file(&p.trace);
+    let (code, err, to) = run_to_end(&p, &["a"]);
+    let tr1 = p.trace_lines();
+    let z_after = std::fs::read(&rec_z).ok();
+    let notes = p.root.join(".zinoma/notes.txt").exists();
+    let _ = std::fs::remove_file(&p.trace);
+    let (code2, _e2, to2) = run_to_end(&p, &["z"]);
+    let tr2 = p.trace_lines();
+    let r = if to || code != Some(0) {
+        Some(("run with a damaged record failed".to_string(), format!("{:?} {}", code, err)))
+    } else if !tr1.iter().any(|l| l == "start a") || tr1.iter().any(|l| l == "start z") {
+        Some(("wrong targets ran".to_string(), format!("zinoma a ran {:?}", tr1)))
+    } else if z_after.as_deref() != Some(&zb[..]) || !notes {
+        Some(("state of a target outside the closure was touched".to_string(), format!("z.checksums {} , notes.txt present: {}", if z_after.is_none() { "deleted" } else { "changed" }, notes)))
+    } else if to2 || code2 != Some(0) || !tr2.is_empty() {
+        Some(("the sibling target was rebuilt afterwards".to_string(), format!("zinoma z ran {:?}", tr2)))
+    } else {
+        None
+    };
+    p.cleanup();
+    r
+}
+
 pub fn bind_c08(rep: &mut Report) {
     let sc: Vec<Scenario> = vec![
         ("diamond, every target once", || c04_shape(yml_diamond, &["a", "a", "d"], &["a", "b", "c", "d"])),
         ("request b: only b and d run", c08_outside_closure),
+        ("damaged record of a requested target, sibling state untouched", c08_corrupted_record_and_sibling_state),
     ];
     run_scenarios(rep, "C08", sc);
 }
@@ -839,4 +883,53 @@ fn wait_end_kill(mut c: Child) -> String {
 pub fn bind_c06(rep: &mut Report) {
     let sc: Vec<Scenario> = vec![("producer->consumer, real watcher: clean tree, edit while idle, edit during a build, no rebuild loop", c06_watch_real)];
     run_scenarios(rep, "C06", sc);
+}
+
+
+// ---------------------------------------------------------------------------------------
+// C17: independent targets overlap (rendezvous scripts: each waits for the others' start lines)
+
+fn c17_rendezvous(names: &'static [&'static str], yml: fn(&Proj) -> String, args: &'static [&'static str]) -> Option<(String, String)> {
+    let p = Proj::new("c17");
+    p.write_yml("zinoma.yml", &yml(&p));
+    let c = p.spawn(args);
+    let e = wait_end(c, 40);
+    let tr = p.trace_lines();
+    let r = if e.timed_out || e.code != Some(0) {
+        Some(("independent targets did not all run at the same time".to_string(), format!("zinoma {:?} exit {:?} timed_out {}; trace {:?}; stderr {}", args, e.code, e.timed_out, tr, e.stderr.lines().rev().take(3).collect::<Vec<_>>().join(" | "))))
+    } else if !names.iter().all(|n| tr.iter().any(|l| l == &format!("overlap {}", n))) {
+        Some(("rendezvous incomplete".to_string(), format!("trace {:?}", tr)))
+    } else {
+        None
+    };
+    p.cleanup();
+    r
+}
+
+/// script of `name`: log the start, wait (bounded) until every other target of `all` logged its start too
+fn rendezvous(p: &Proj, name: &str, all: &[&str]) -> String {
+    let mut waits = String::new();
+    for o in all.iter().filter(|o| **o != name) {
+        waits += &format!("i=0; while ! grep -q \"^start {o}$\" {t} 2>/dev/null; do i=$((i+1)); [ $i -gt 1500 ] && exit 9; sleep 0.01; done; ", o = o, t = p.trace.display());
+    }
+    p.script(name, &format!("{}echo overlap {} >> {}", waits, name, p.trace.display()))
+}
+
+fn yml_three_independent(p: &Proj) -> String {
+    let all = ["x", "y", "z"];
+    format!("targets:\n  x:\n    build: '{}'\n  y:\n    build: '{}'\n  z:\n    build: '{}'\n  all:\n    dependencies: [x, y, z]\n", rendezvous(p, "x", &all), rendezvous(p, "y", &all), rendezvous(p, "z", &all))
+}
+fn yml_build_beside_service_dep(p: &Proj) -> String {
+    // top depends on a slow-ish build and on a service: the service must come up while the build runs
+    let all = ["lib", "db"];
+    format!("targets:\n  lib:\n    build: '{}'\n  db:\n    service: '{}; exec sleep 1000'\n  top:\n    dependencies: [lib, db]\n    build: '{}'\n", rendezvous(p, "lib", &all), rendezvous(p, "db", &all), p.quick("top"))
+}
+
+pub fn bind_c17(rep: &mut Report) {
+    let sc: Vec<Scenario> = vec![
+        ("three independent builds under an aggregate", || c17_rendezvous(&["x", "y", "z"], yml_three_independent, &["all"])),
+        ("three independent builds requested one by one", || c17_rendezvous(&["x", "y", "z"], yml_three_independent, &["z", "x", "y"])),
+        ("a build and a service that are both dependencies of one build", || c17_rendezvous(&["lib", "db"], yml_build_beside_service_dep, &["top"])),
+    ];
+    run_scenarios(rep, "C17", sc);
 }
